@@ -209,3 +209,18 @@ Proof.
   destruct (str_leb_total an bn) as [L|L]; [left|right]; right; split; auto.
 Qed.
 Print Assumptions C13_offer_order_total.
+
+(* ------------------------------------------------------------------ translator tie: the replacement
+   condition of the redirect loop of check_parameterised as extracted on this run
+   (Generated.CheckGen.redirect_replace_cond) is the one of C13_Model.pick_loop: higher priority,
+   or equal priority and a resource name that sorts first *)
+From Adb Require Struct_Check_Proofs.
+Theorem C13_src_redirect_replace_is_model : forall exceptions f r r1 p1 s,
+  rr_exception f = false -> rr_option f = Some s ->
+  mem_str (fst (split_redirect_priority s)) exceptions = false ->
+  pick_loop exceptions (f :: r) (Some (r1, p1))
+  = if Struct_Check_Proofs.qeval (Struct_Check_Proofs.redirect_env (split_redirect_priority s) r1 p1) CheckGen.redirect_replace_cond
+    then pick_loop exceptions r (Some (split_redirect_priority s))
+    else pick_loop exceptions r (Some (r1, p1)).
+Proof. exact Struct_Check_Proofs.redirect_replace_is_model. Qed.
+Print Assumptions C13_src_redirect_replace_is_model.
